@@ -23,6 +23,8 @@ mutate / stream), which the retry logic of the client relies on.
 Added while testing against seeded changes: Also: RemoteBranch/RemoteRepository.lock_write (re)initialise _leave_lock
 on every outermost lock; RemoteStreamSink.insert_stream calls target_repo.refresh_data() before reporting a successful
 RPC insert.
+cache-clear-siblings-agree: RemoteBranch._clear_cached_state_of_remote_branch_only resets every own cache attribute
+that _clear_cached_state resets (and calls the base class part when that one does).
 Does not decide: behavioural equivalence of remote and local operations (not applicable to static analysis).
 """
 VERB_RE = re.compile(rb"^(Branch|BzrDir|BzrDirFormat|Repository|PackRepository|Transport|VersionedFileRepository)\.[A-Za-z_0-9.]+$")
@@ -91,8 +93,26 @@ def run(ctx):
     r = g.reach(rpc, avoid=set(rf))
     ctx.check("vfs-view-refreshed-after-rpc-insert", where, bool(rf) and not (set(after) & r), "after the server inserted the stream, target_repo.refresh_data() runs before success is reported (the client's VFS view reloads pack-names)", message="insert_stream reports success without refresh_data(): under a held write lock the client-side real repository keeps its old pack list, so VFS-backed reads and the next commit do not see the revisions just pushed — results differ from the same sequence on a local path")
 
+    # ---- the two cache-clearing siblings of RemoteBranch reset the same client-side caches -----------------------------
+    # _clear_cached_state_of_remote_branch_only is "_clear_cached_state without touching _real_branch": every cache
+    # attribute of the RemoteBranch itself that the full version resets, the partial one resets too (it is what pull()
+    # and the VFS fallbacks call before the underlying branch changes).
+    def _own_resets(f):
+        out = set()
+        for n in walk_own(f):
+            if isinstance(n, ast.Assign) and isinstance(n.targets[0], ast.Attribute) and norm(n.targets[0].value) == "self" and isinstance(n.value, ast.Constant) and n.value.value is None:
+                out.add(n.targets[0].attr)
+        sup = any(isinstance(c.func, ast.Attribute) and norm(c.func).startswith("super()") for c in calls_in(f))
+        return out, sup
+
+    full = repo.func(RM, "RemoteBranch._clear_cached_state")
+    part = repo.func(RM, "RemoteBranch._clear_cached_state_of_remote_branch_only")
+    (rf_, sf_), (rp_, sp_) = _own_resets(full), _own_resets(part)
+    ctx.check("cache-clear-siblings-agree", f"{RM}:RemoteBranch._clear_cached_state_of_remote_branch_only", rf_ <= rp_ and (sp_ or not sf_), f"caches reset by _clear_cached_state {sorted(rf_)} are reset by the remote-only sibling {sorted(rp_)} (base class part: {sp_})", construct=str(sorted(rf_ - rp_)), message=f"_clear_cached_state_of_remote_branch_only leaves {sorted(rf_ - rp_)} cached although _clear_cached_state resets it: after an operation that changes the underlying branch through _real_branch (pull, VFS fallbacks) under a lock that was already held, the RemoteBranch answers from the stale cache where a local branch answers with the new value (e.g. tags merged by pull are missing)")
+    ctx.require(bool(rf_), f"{RM}:RemoteBranch._clear_cached_state resets no own cache attribute (hand-confirmed: _tags_bytes)")
 
 MUTANTS = [
+    Mutant("remote-only cache clearing keeps the tags", RM, "        super()._clear_cached_state()\n        self._tags_bytes = None\n\n    @property\n    def control_files", "        super()._clear_cached_state()\n\n    @property\n    def control_files", expect="cache-clear-siblings-agree"),
     Mutant("branch lock keeps the previous release mode", RM, "            if token is not None:\n                self._leave_lock = True\n            else:\n                self._leave_lock = False\n            self._lock_mode = \"w\"\n            self._lock_count = 1\n        elif self._lock_mode == \"r\":\n            raise errors.ReadOnlyError(self)\n        else:\n            if token is not None:\n                # A token was given to lock_write, and we're relocking, so\n                # check that the given token actually matches the one we\n                # already have.\n                if token != self._lock_token:\n                    raise errors.TokenMismatch(token, self._lock_token)\n            self._lock_count += 1\n            # Re-lock the repository too.\n            self.repository.lock_write(self._repo_lock_token)", "            if token is not None:\n                self._leave_lock = True\n            self._lock_mode = \"w\"\n            self._lock_count = 1\n        elif self._lock_mode == \"r\":\n            raise errors.ReadOnlyError(self)\n        else:\n            if token is not None:\n                # A token was given to lock_write, and we're relocking, so\n                # check that the given token actually matches the one we\n                # already have.\n                if token != self._lock_token:\n                    raise errors.TokenMismatch(token, self._lock_token)\n            self._lock_count += 1\n            # Re-lock the repository too.\n            self.repository.lock_write(self._repo_lock_token)", expect="lock-release-mode-reinitialised"),
     Mutant("no refresh after the RPC insert", RM, "        else:\n            self.target_repo.refresh_data()\n            return [], set()\n", "        else:\n            return [], set()\n", expect="vfs-view-refreshed-after-rpc-insert"),
     Mutant("client sends an unregistered verb", RM, "b\"Branch.lock_write\"", "b\"Branch.lock_write2\"", expect="client-verb-registered"),
